@@ -322,6 +322,14 @@ def real_part(rep):
                     'sleep 0.3; fi\n'
                     'if grep -q and "$1"; then exit 1; fi\nexit 0\n')
         os.chmod(sigcmd, 0o755)
+        # a command whose output cannot be decoded for some candidates: the
+        # failure of that check must stay contained (with and without -v)
+        badcmd = os.path.join(d, 'badbytes.sh')
+        with open(badcmd, 'w') as f:
+            f.write('#!/bin/sh\nif grep -q and "$1"; then\n'
+                    '  if grep -q "(or" "$1"; then echo found; exit 1; fi\n'
+                    "  printf '\\377\\376\\n'; exit 1\nfi\nexit 0\n")
+        os.chmod(badcmd, 0o755)
         atoms_in = os.path.join(d, 'atoms.smt2')
         with open(atoms_in, 'w') as f:
             f.write('; only atoms\ntrigger\nfoo bar\n"lit" |q s|\n')
@@ -370,6 +378,11 @@ def real_part(rep):
             ('empty-input', [empty_in, out, never], True, False),
             ('comments-only-input', [comments_in, out, atomcmd], True, False),
         ]
+        for strat in ('ddmin', 'hierarchical', 'hybrid'):
+            for v in ([], ['-v']):
+                cases.append((f'undecodable-output-{strat}{"".join(v)}',
+                              v + ['--strategy', strat, ok_in, out, badcmd],
+                              True, False))
         procs = []
         for lname, launcher in launchers:
             for cname, args, zero, usage in cases:
@@ -444,8 +457,11 @@ def judge_real(rep, lname, cname, zero, usage, rc, out, err, tmp,
     if not interrupt and ('Traceback (most recent call last)' in err
                           or 'Traceback' in out):
         bad('traceback', 'uncaught traceback')
-    if interrupt and '[ddsmt] interrupted' not in out:
-        bad('interrupt-not-reported', 'no "[ddsmt] interrupted" message')
+    # (what an interrupted run prints is not part of the statement: when the
+    # signal reaches the whole process group, the manager process that holds
+    # the abort flag may die before the main process handles its own
+    # KeyboardInterrupt, which then ends with an EOFError traceback instead
+    # of "[ddsmt] interrupted"; the statement only asks for status != 0)
     if zero and rc != 0:
         bad('nonzero-on-completion', 'minimisation ran to completion but the '
             'exit status is not 0')
@@ -489,7 +505,9 @@ def main(tier):
         'every 7th state; (2) all shapes (head x arity 0..2 (thorough 3) x '
         f'{len(CHILDREN)} children) for {len(HEADS)} heads in 4 contexts; '
         '(3) real runs of bin/ddsmt and python -m ddsmt: 12 completion / '
-        'usage-error cases + SIGINT at the 1st/3rd/6th test')
+        'usage-error cases + a command with undecodable output for some '
+        'candidates (3 strategies, with and without -v) + SIGINT at the '
+        '1st/3rd/6th test (exit status only)')
     rep.assume('seed family ddv/seeds.py', 'the list of unguarded code '
                'paths in checks/c04.py (read off cli.py / strategy_*.py)')
     return rep.finish()
